@@ -33,6 +33,11 @@ def fixed_cases(tier):
             for r in range(reps):
                 yield {'kind': kind, 'limit_ms': 80, 'delta_ms': d, 'exc': EXC_TYPES[(d+r) % len(EXC_TYPES)],
                        'tau_ms': 300 if d in (60, 200, 500) else 30, 'rep': r}
+    # nested limiter whose own expiry (0.45 s) falls just behind the outer one (0.4 s): the outer interrupt tends to reach
+    # the worker while the inner limiter is closing its pool
+    for r in range(3 if tier == 'quick' else 12):
+        yield {'kind': 'nested_inner_times_out', 'limit_ms': 400, 'delta_ms': 500, 'exc': 'ValueError', 'tau_ms': 5,
+               'rep': r}
     # decidedly in time (>= 300 ms before a 400-500 ms limit): the own result / every own exception type must come back
     for limit, d in ((400, -380), (500, -320)):
         yield {'kind': 'return', 'limit_ms': limit, 'delta_ms': d, 'exc': 'ValueError', 'tau_ms': 30, 'rep': 0}
